@@ -4,6 +4,7 @@ package main
 // Frontend (overlay shim), a spy TrackerLogic, a pinned clock, and the `udp.handle` operation.
 
 import (
+	"bytes"
 	"context"
 	"crypto/hmac"
 	"crypto/sha256"
@@ -11,9 +12,7 @@ import (
 	"errors"
 	"fmt"
 	"net"
-	"os"
-	"path/filepath"
-	"regexp"
+	"net/http/httptest"
 	"runtime"
 	"sort"
 	"strconv"
@@ -21,38 +20,52 @@ import (
 	"sync"
 	"time"
 
+	abencode "github.com/anacrolix/torrent/bencode"
 	"github.com/chihaya/chihaya/bittorrent"
+	httpfe "github.com/chihaya/chihaya/frontend/http"
 	udpfe "github.com/chihaya/chihaya/frontend/udp"
 	"github.com/chihaya/chihaya/pkg/timecache"
 )
 
 const udpKey = "verif-private-key"
 
-// clientErrLiterals: every string literal used to build a bittorrent.ClientError in the current source.
-var clientErrLiterals = func() map[string]bool {
-	m := map[string]bool{}
-	repo := os.Getenv("VERIF_REPO")
-	if repo == "" {
-		repo = "/repo"
+// The message each frontend shows for a failure that is not the client's fault is learned from the real
+// WriteError (twice, with different internal errors: it must not depend on them). Every other message is
+// client-facing. (Earlier versions scraped ClientError("…") literals from the source, which broke on a
+// harmless rewrite that builds a message by concatenation.)
+var fixedInternalUDP, fixedInternalHTTP = func() (string, string) {
+	u := func(e error) string {
+		var b bytes.Buffer
+		udpfe.WriteError(&b, []byte{0, 0, 0, 0}, e)
+		if b.Len() < 8 {
+			return "\x00none"
+		}
+		return strings.TrimSuffix(string(b.Bytes()[8:]), "\x00")
 	}
-	re := regexp.MustCompile(`ClientError\("((?:[^"\\]|\\.)*)"\)`)
-	_ = filepath.Walk(repo, func(p string, info os.FileInfo, err error) error {
-		if err != nil || info.IsDir() || !strings.HasSuffix(p, ".go") || strings.HasSuffix(p, "_test.go") {
-			return nil
+	h := func(e error) string {
+		w := httptest.NewRecorder()
+		_ = httpfe.WriteError(w, e)
+		var v map[string]interface{}
+		if err := abencode.Unmarshal(w.Body.Bytes(), &v); err != nil {
+			return "\x00none"
 		}
-		b, e := os.ReadFile(p)
-		if e != nil {
-			return nil
-		}
-		for _, mm := range re.FindAllSubmatch(b, -1) {
-			if s, e := strconv.Unquote(`"` + string(mm[1]) + `"`); e == nil {
-				m[s] = true
-			}
-		}
-		return nil
-	})
-	return m
+		m, _ := v["failure reason"].(string)
+		return m
+	}
+	ua, ub := u(errors.New("probe-internal-A")), u(fmt.Errorf("probe-internal-B %d", 7))
+	ha, hb := h(errors.New("probe-internal-A")), h(fmt.Errorf("probe-internal-B %d", 7))
+	if ua != ub {
+		ua = "\x00varies"
+	}
+	if ha != hb {
+		ha = "\x00varies"
+	}
+	return ua, ha
 }()
+
+func isClientMsgUDP(msg string) bool  { return msg != fixedInternalUDP && !strings.Contains(msg, "probe-internal") }
+func isClientMsgHTTP(msg string) bool { return msg != fixedInternalHTTP && !strings.Contains(msg, "probe-internal") }
+
 
 const injectedClientMsg = "injected client error"
 
@@ -357,7 +370,7 @@ func udpHandle(c *Ctx, uc udpCase) {
 					cls = "client"
 				case called && kind == "internal":
 					cls = "internal"
-				case !called && clientErrLiterals[string(msg)]:
+				case !called && isClientMsgUDP(string(msg)):
 					cls = "client"
 				}
 				out = "error tx=" + hx(d[4:8]) + " cls=" + cls + " nul=" + b01(nul)
